@@ -59,31 +59,48 @@ def run(chk):
         for p in progs:
             chk.count_case([curve, p["p"]])
         chk.sample({"curve": curve, "program": progs[min(3, len(progs) - 1)]})
-        for rj in rej:
-            # the emitted proof is not the reference prover's. Is it the blinding that deviates?
-            one = chk.path("one.ndjson")
+        # the emitted proof is not the reference prover's. Is it the blinding that deviates?  (judged run by run, a few at a time)
+        def judge(k_rj):
+            k, rj = k_rj
+            tag = "_j%d" % k
+            one = chk.path("one%s.ndjson" % tag)
             vlib.write_ndjson(one, rj["run"])
-            a_h, r_h = vlib.validate_traces(chk, one, curve, flags=vlib.flags(H=1))
+            a_h, r_h = vlib.validate_traces(chk, one, curve, flags=vlib.flags(H=1), tag=tag, jobs=1)
             if r_h:
                 # the constraint-system bookkeeping itself differs from the specification (C16's business): the reference prover would be
                 # fed a different assignment layout, so it is no yardstick for this run
-                chk.cov["runs_not_judged_protocol_differs"] = chk.cov.get("runs_not_judged_protocol_differs", 0) + 1
-                continue
-            a_b, r_b = vlib.validate_traces(chk, one, curve, flags=dict(vlib.flags(R=1, E=1), CMP_B="1"))
+                return "differs"
+            a_b, r_b = vlib.validate_traces(chk, one, curve, flags=dict(vlib.flags(R=1, E=1), CMP_B="1"), tag=tag, jobs=1)
             if r_b:
                 # the weight-independent part already differs: draw count, a witness-bearing or masking commitment, e_blinding, RNG construction
-                vlib.report_rejects(chk, [rj], "blinding")
-                continue
-            a_v, r_v = vlib.validate_traces(chk, one, curve, flags=vlib.flags(V=1))
+                return "blinding"
+            a_v, r_v = vlib.validate_traces(chk, one, curve, flags=vlib.flags(V=1), tag=tag, jobs=1)
             accepted = any(e.get("ev") == "end" and e.get("vres") == "ok" for e in rj["run"])
             if not r_v and accepted:
                 # the reference verifier accepts this proof exactly as the code does, so the protocol is the reference protocol and the remaining
                 # difference (polynomial commitments T_k, t_x_blinding) lies in the prover's blinding
-                vlib.report_rejects(chk, [rj], "blinding-poly")
-            else:
-                # prover and verifier both deviate from the reference protocol in the same run: what is proved changed (C18's business),
-                # and the reference prover is no yardstick for this run's polynomial blindings
+                return "blinding-poly"
+            # prover and verifier both deviate from the reference protocol in the same run: what is proved changed (C18's business),
+            # and the reference prover is no yardstick for this run's polynomial blindings
+            return "differs"
+
+        import concurrent.futures as cf
+        first = list(enumerate(rej))[:24]
+        with cf.ThreadPoolExecutor(max_workers=8) as ex:
+            verdicts = list(ex.map(judge, first))
+            if len(rej) > len(first):
+                if len(set(verdicts)) == 1:
+                    # two dozen rejected runs all judged alike: the same cause is assumed for the rest of this workload (each is still reported
+                    # with its own trace); a mixed picture is judged run by run
+                    verdicts += [verdicts[0]] * (len(rej) - len(first))
+                    chk.cov["rejections_judged_by_extrapolation"] = chk.cov.get("rejections_judged_by_extrapolation", 0) + len(rej) - len(first)
+                else:
+                    verdicts += list(ex.map(judge, list(enumerate(rej))[len(first):]))
+        for rj, vd in zip(rej, verdicts):
+            if vd == "differs":
                 chk.cov["runs_not_judged_protocol_differs"] = chk.cov.get("runs_not_judged_protocol_differs", 0) + 1
+            else:
+                vlib.report_rejects(chk, [rj], vd)
     # differential runs on the 256-bit curves: different external randomness => no shared component except the statement-fixed ones;
     # the same randomness => the same proof
     shapes = [member(0, "good", "hid", 1), member(1, "good", "hid", 1), member(3, "good", "hid", 1), two_phase(1, "hid", 1), two_phase(3, "hid", 1)]
